@@ -49,7 +49,7 @@ def part_pipeline(ctx):
     """whole pipelines with n_iter / epsilon: recorded matrices decided by Trace_EM.tla"""
     rng = random.Random(ctx.seed + 3)
     jobs = []
-    fams = ["token", "token", "timed", "timed", "multi", "ngram"]
+    fams = ["token", "token", "timed", "timed", "multi", "multi", "ngram"]
     KW = {"flat": [1, 1, 1], "harmonic": [2, 1], "geometric": [4, 2, 1]}
     for k in range(ctx.pick(100, 900)):
         fam = rng.choice(fams)
@@ -61,7 +61,7 @@ def part_pipeline(ctx):
             corpus = [[rng.randrange(V) for _ in range(rng.randint(2 if fam == "ngram" else 1, 7))] for _ in range(nd)]
             if fam == "ngram" and not any(len(d) >= 2 for d in corpus):
                 continue
-        kern = rng.choice(["flat", "flat", "geometric", "harmonic"]) if fam == "token" else rng.choice(["flat", "geometric"]) if fam == "timed" else "flat"
+        kern = rng.choice(["flat", "flat", "geometric", "harmonic"]) if fam == "token" else rng.choice(["flat", "geometric"]) if fam in ("timed", "multi") else "flat"
         jobs.append(dict(family=fam, corpus=corpus, V=V, n_iter=rng.choice([1, 2, 3]), eps=rng.choice([0, 0, 0.05, 0.2, 0.5]),
                          r=rng.randint(1, 2 if kern == "harmonic" else 3), wnorm=rng.random() < 0.7, N=2, kernel=kern,
                          extra=dict(n_threads=rng.choice([1, 2, 3]))))
@@ -103,9 +103,9 @@ def part_pipeline(ctx):
     # the iteration itself: consecutive recorded matrices are related by the documented step (interval arithmetic in TLC)
     chain, cown = [], []
     for j, r in zip(jobs, res):
-        if j["family"] in ("token", "timed") and r and "codes" in r and r.get("finite"):
-            chain.append({"V": j["V"], "r": j["r"], "eps": int(round(j["eps"] * 10 ** 6)), "corpus": j["corpus"], "mats": r["codes"],
-                          "kw": KW[j["kernel"]]})
+        if j["family"] in ("token", "timed", "multi") and r and "codes" in r and r.get("finite"):
+            chain.append({"family": "multi" if j["family"] == "multi" else "token", "V": j["V"], "r": j["r"], "eps": int(round(j["eps"] * 10 ** 6)), "corpus": j["corpus"], "mats": r["codes"],
+                          "kw": ([1, 1, 1, 1] if j["kernel"] == "flat" else [8, 4, 2, 1]) if j["family"] == "multi" else KW[j["kernel"]]})
             cown.append(j)
     tmp = tempfile.mkdtemp(prefix="verif_tr_")
     try:
@@ -115,7 +115,7 @@ def part_pipeline(ctx):
         r = tlc.run_tlc("Trace_EMChain", {}, spec="Spec", invariants=["Verdict"], workers=1, env={"TRACE_FILE": path}, timeout=3000, heap="6g")
     finally:
         shutil.rmtree(tmp, ignore_errors=True)
-    ctx.add_tlc(r, "Trace_EMChain on %d recorded token/timed pipelines" % len(chain))
+    ctx.add_tlc(r, "Trace_EMChain on %d recorded token/timed/multiset pipelines" % len(chain))
     verdicts = {int(p["verdict"]): p for p in r.prints if "verdict" in p}
     if len(verdicts) != len(chain):
         raise MachineryError("Trace_EMChain returned %d verdicts for %d runs\n%s" % (len(verdicts), len(chain), r.raw[-1500:]))
